@@ -17,6 +17,8 @@ package props
 // listener addresses (DNS), integers above 2^53 inside free-form maps, non-string metadata values.
 
 import (
+	v2 "mosn.io/mosn/pkg/config/v2"
+
 	"encoding/base64"
 	"encoding/json"
 	"fmt"
@@ -38,35 +40,40 @@ type c19Gen struct {
 	dynSeq  int
 	dynamic bool // may use router_configs / clusters_configs directories
 	dirs    []c19DynDir
+	sys     bool // system profile: additionally valid for (and harmless in) the real init path, see sysFix
 }
 
 // c19DynDir is one dynamic-mode directory the configuration refers to.
 type c19DynDir struct {
 	Kind  string // "clusters" or "virtual_hosts"
 	Path  string
+	Ref   string        // how the configuration refers to it
 	Items []interface{} // the generated elements, in file-name order
 }
 
+var c19ProxyType v2.Proxy
+var c19RouterCfgType v2.RouterConfiguration
+
 var c19EnumHints = map[string][]string{
-	"ListenerConfig.type":               {"ingress", "egress"},
-	"ListenerConfig.use_original_dst":   {"tproxy", "redirect"},
-	"Cluster.type":                      {"SIMPLE", "STATIC", "DYNAMIC", "EDS", "ORIGINAL_DST", "STRICT_DNS"},
-	"Cluster.lb_type":                   {"LB_RANDOM", "LB_ROUNDROBIN", "LB_ORIGINAL_DST", "LB_LEAST_REQUEST", "LB_MAGLEV", "LB_WEIGHTED_ROUNDROBIN", "LB_REQUEST_ROUNDROBIN", "LB_LEAST_CONNECTION", "LB_PEAK_EWMA"},
-	"Cluster.dns_lookup_family":         {"V4_ONLY", "V6_ONLY"},
-	"Filter.type":                       {"proxy", "tcp_proxy", "udp_proxy", "connection_manager", "fault_inject", "grpc", "tunnel", "fault", "payload_limit", "gzip", "dsl", "mirror", "ip_access", "original_dst"},
-	"TLSConfig.min_version":             {"TLS_AUTO", "TLSv1_0", "TLSv1_1", "TLSv1_2", "TLSv1_3"},
-	"TLSConfig.max_version":             {"TLS_AUTO", "TLSv1_0", "TLSv1_1", "TLSv1_2", "TLSv1_3"},
-	"TLSConfig.alpn":                    {"h2,http/1.1", "h2", "http/1.1"},
-	"HealthCheckConfig.protocol":        {"Http1", "Http2", "bolt", "dubbo", "tars"},
-	"ServerConfig.default_log_level":    {"TRACE", "DEBUG", "INFO", "WARN", "ERROR", "FATAL"},
-	"ThirdPartCodec.type":               {"go-plugin", "wasm"},
-	"Proxy.downstream_protocol":         {"Http1", "Http2", "Auto", "bolt", "X"},
-	"Proxy.upstream_protocol":           {"Http1", "Http2", "Auto", "bolt", "X"},
+	"ListenerConfig.type":                  {"ingress", "egress"},
+	"ListenerConfig.use_original_dst":      {"tproxy", "redirect"},
+	"Cluster.type":                         {"SIMPLE", "STATIC", "DYNAMIC", "EDS", "ORIGINAL_DST", "STRICT_DNS"},
+	"Cluster.lb_type":                      {"LB_RANDOM", "LB_ROUNDROBIN", "LB_ORIGINAL_DST", "LB_LEAST_REQUEST", "LB_MAGLEV", "LB_WEIGHTED_ROUNDROBIN", "LB_REQUEST_ROUNDROBIN", "LB_LEAST_CONNECTION", "LB_PEAK_EWMA"},
+	"Cluster.dns_lookup_family":            {"V4_ONLY", "V6_ONLY"},
+	"Filter.type":                          {"proxy", "tcp_proxy", "udp_proxy", "connection_manager", "fault_inject", "grpc", "tunnel", "fault", "payload_limit", "gzip", "dsl", "mirror", "ip_access", "original_dst"},
+	"TLSConfig.min_version":                {"TLS_AUTO", "TLSv1_0", "TLSv1_1", "TLSv1_2", "TLSv1_3"},
+	"TLSConfig.max_version":                {"TLS_AUTO", "TLSv1_0", "TLSv1_1", "TLSv1_2", "TLSv1_3"},
+	"TLSConfig.alpn":                       {"h2,http/1.1", "h2", "http/1.1"},
+	"HealthCheckConfig.protocol":           {"Http1", "Http2", "bolt", "dubbo", "tars"},
+	"ServerConfig.default_log_level":       {"TRACE", "DEBUG", "INFO", "WARN", "ERROR", "FATAL"},
+	"ThirdPartCodec.type":                  {"go-plugin", "wasm"},
+	"Proxy.downstream_protocol":            {"Http1", "Http2", "Auto", "bolt", "X"},
+	"Proxy.upstream_protocol":              {"Http1", "Http2", "Auto", "bolt", "X"},
 	"RouterActionConfig.upstream_protocol": {"Http1", "Http2", "bolt"},
-	"SampleConfig.type":                 {"UNIFORM", "EXP_DECAY"},
-	"SlowStartConfig.mode":              {"duration"},
-	"VariableMatcher.model":             {"and", "or"},
-	"TracingConfig.driver":              {"SOFATracer", "SkyWalking", "jaeger", "zipkin"},
+	"SampleConfig.type":                    {"UNIFORM", "EXP_DECAY"},
+	"SlowStartConfig.mode":                 {"duration"},
+	"VariableMatcher.model":                {"and", "or"},
+	"TracingConfig.driver":                 {"SOFATracer", "SkyWalking", "jaeger", "zipkin"},
 }
 
 var c19StringPool = []string{
@@ -335,7 +342,8 @@ func (g *c19Gen) object(n *c19Node, depth int) map[string]interface{} {
 	if g.budget <= 0 || depth <= 0 {
 		p = p / 4
 	}
-	for _, f := range n.Fields {
+	for _, fi := range g.r.Perm(len(n.Fields)) { // random visiting order: the node budget must not starve late fields
+		f := n.Fields[fi]
 		composite := f.Node.Kind == c19Struct || f.Node.Kind == c19Slice || f.Node.Kind == c19Map
 		if composite && depth <= 0 {
 			continue
@@ -383,7 +391,7 @@ func (g *c19Gen) object(n *c19Node, depth int) map[string]interface{} {
 		}
 	case "RouterConfiguration", "RouterConfigurationConfig":
 		delete(obj, "router_configs")
-		if g.dynamic && g.chance(8) {
+		if g.dynamic && g.chance(g.dynPct()) {
 			vhNode := n.c19FindField("virtual_hosts").Node.Elem
 			dir := g.newDir("virtual_hosts")
 			cnt := g.r.Intn(4)
@@ -393,11 +401,11 @@ func (g *c19Gen) object(n *c19Node, depth int) map[string]interface{} {
 				g.writeDyn(dir, vh["name"].(string), vh)
 			}
 			delete(obj, "virtual_hosts")
-			obj["router_configs"] = dir
+			obj["router_configs"] = g.dirRef(dir)
 		}
 	case "ClusterManagerConfig", "ClusterManagerConfigJson":
 		delete(obj, "clusters_configs")
-		if g.dynamic && g.chance(8) {
+		if g.dynamic && g.chance(g.dynPct()) {
 			clNode := n.c19FindField("clusters").Node.Elem
 			dir := g.newDir("clusters")
 			cnt := g.r.Intn(4)
@@ -407,11 +415,11 @@ func (g *c19Gen) object(n *c19Node, depth int) map[string]interface{} {
 				g.writeDyn(dir, cl["name"].(string), cl)
 			}
 			delete(obj, "clusters")
-			obj["clusters_configs"] = dir
+			obj["clusters_configs"] = g.dirRef(dir)
 		}
 	default:
 		// encoding/json matches keys case-insensitively: MOSN understands "Timeout" where the tag says "timeout"
-		if g.chance(2) && len(obj) > 0 {
+		if !g.sys && g.chance(2) && len(obj) > 0 {
 			keys := make([]string, 0, len(obj))
 			for k := range obj {
 				keys = append(keys, k)
@@ -424,14 +432,39 @@ func (g *c19Gen) object(n *c19Node, depth int) map[string]interface{} {
 			}
 		}
 	}
+	if g.sys {
+		g.sysFix(n, obj, depth)
+	}
 	return obj
 }
 
+// newDir creates a dynamic-mode directory. In the system profile the configuration refers to it relative to the
+// working directory of the loading process (= g.dynDir).
 func (g *c19Gen) newDir(kind string) string {
 	g.dynSeq++
-	dir := filepath.Join(g.dynDir, fmt.Sprintf("%s-%d", kind, g.dynSeq))
+	name := fmt.Sprintf("%s-%d", kind, g.dynSeq)
+	dir := filepath.Join(g.dynDir, name)
 	_ = os.MkdirAll(dir, 0o755)
-	g.dirs = append(g.dirs, c19DynDir{Kind: kind, Path: dir})
+	g.dirs = append(g.dirs, c19DynDir{Kind: kind, Path: dir, Ref: dir})
+	if g.sys {
+		g.dirs[len(g.dirs)-1].Ref = name
+	}
+	return dir
+}
+
+func (g *c19Gen) dynPct() int {
+	if g.sys {
+		return 30
+	}
+	return 8
+}
+
+func (g *c19Gen) dirRef(dir string) string {
+	for _, d := range g.dirs {
+		if d.Path == dir {
+			return d.Ref
+		}
+	}
 	return dir
 }
 
@@ -481,4 +514,211 @@ func c19ShapeString(set map[string]struct{}) string {
 	}
 	sort.Strings(ks)
 	return fmt.Sprint(ks)
+}
+
+// sysFix restricts a generated object to what the real init path accepts and can execute harmlessly in a scratch
+// directory (no sockets, no files outside the working directory, no background activity, no unbounded allocation):
+//   - exactly one server; listeners with unique names/addresses and exactly one filter chain; TLS contexts disabled
+//     (status=false: no certificate is loaded; the other TLS fields stay random); relative log/pid paths
+//   - name-keyed things get unique non-empty keys: listeners, routers, clusters, virtual hosts, extend types
+//   - no STRICT_DNS clusters, no health-check service (no resolver / checker goroutines), no known tracing driver, no
+//     shm zone, no pprof server, no wasm plugins, no Go plugins, bounded metrics sample size
+//
+// Everything else keeps the random content of the codec profile.
+func (g *c19Gen) sysFix(n *c19Node, obj map[string]interface{}, depth int) {
+	delete(obj, "x_verif_unknown")
+	asMap := func(v interface{}) map[string]interface{} { m, _ := v.(map[string]interface{}); return m }
+	asList := func(v interface{}) []interface{} { a, _ := v.([]interface{}); return a }
+	switch n.GoType.Name() {
+	case "MOSNConfig":
+		srvNode := n.c19FindField("servers").Node.Elem
+		var srv interface{}
+		if a := asList(obj["servers"]); len(a) > 0 {
+			srv = a[0]
+		} else {
+			srv = g.object(srvNode, depth-1)
+		}
+		obj["servers"] = []interface{}{srv}
+		if t := asMap(obj["tracing"]); t != nil && t["enable"] == true {
+			t["driver"] = g.name("verif-driver") // no such driver: tracing stays off, the configuration is kept
+		}
+		if m := asMap(obj["metrics"]); m != nil {
+			delete(m, "shm_zone")
+			for _, sk := range asList(m["sinks"]) {
+				if skm := asMap(sk); skm != nil {
+					skm["type"] = g.name("verif-sink")
+				}
+			}
+		}
+		if p := asMap(obj["pprof"]); p != nil {
+			p["debug"] = false
+		}
+		if _, ok := obj["pid"]; ok {
+			obj["pid"] = g.name("mosn") + ".pid"
+		}
+		if _, ok := obj["uds_dir"]; ok {
+			obj["uds_dir"] = g.name("uds")
+		}
+		delete(obj, "wasm_global_plugins") // (a plugin without vm_config makes wasm.NewWasmPlugin panic; a url is downloaded)
+	case "PluginConfig":
+		if _, ok := obj["log_base"]; ok {
+			obj["log_base"] = "plugin-logs"
+		}
+	case "ThirdPartCodec":
+		delete(obj, "enable")
+	case "ExtendConfig":
+		obj["type"] = g.name("verif-ext")
+	case "SampleConfig":
+		if _, ok := obj["size"]; ok {
+			obj["size"] = int64(g.r.Intn(4097))
+		}
+	case "ServerConfig":
+		switch g.r.Intn(3) {
+		case 0:
+			delete(obj, "default_log_path")
+		case 1:
+			obj["default_log_path"] = "stdout"
+		default:
+			obj["default_log_path"] = "./logs/" + g.name("default") + ".log"
+		}
+		delete(obj, "global_log_roller")
+	case "Listener", "ListenerConfig":
+		if g.chance(80) {
+			obj["name"] = g.name("listener")
+		} else {
+			delete(obj, "name")
+		}
+		nw, _ := obj["network"].(string)
+		g.dynSeq++
+		if strings.EqualFold(nw, "unix") {
+			obj["address"] = fmt.Sprintf("./verif-%d.sock", g.dynSeq)
+		} else {
+			host := []string{"127.0.0.1", "0.0.0.0", "10.1.2.3", "[::1]", ""}[g.r.Intn(5)]
+			obj["address"] = fmt.Sprintf("%s:%d", host, 20000+g.dynSeq)
+		}
+		fcNode := n.c19FindField("filter_chains").Node.Elem
+		var fc interface{}
+		if a := asList(obj["filter_chains"]); len(a) > 0 {
+			fc = a[0]
+		} else {
+			fc = g.object(fcNode, depth-1)
+		}
+		obj["filter_chains"] = []interface{}{fc}
+		for _, al := range asList(obj["access_logs"]) {
+			if alm := asMap(al); alm != nil {
+				delete(alm, "log_format")
+				alm["log_path"] = "./logs/" + g.name("access") + ".log"
+			}
+		}
+	case "Filter":
+		delete(obj, "go_plugin_config")
+		switch g.r.Intn(6) {
+		case 2: // deprecated spelling: the router configuration inside the listener's connection_manager filter
+			obj["type"] = "connection_manager"
+			dyn := g.dynamic
+			g.dynamic = false
+			obj["config"] = c19ClampFree(g.object(c19NodeOf(reflect.TypeOf(c19RouterCfgType)), 8))
+			g.dynamic = dyn
+		case 0:
+			obj["type"] = "proxy"
+			px := g.object(c19NodeOf(reflect.TypeOf(c19ProxyType)), 3)
+			px["downstream_protocol"] = []string{"Http1", "Http2", "Auto", "bolt"}[g.r.Intn(4)]
+			obj["config"] = c19ClampFree(px)
+		case 1:
+			obj["type"] = "tcp_proxy"
+			obj["config"] = map[string]interface{}{"cluster": g.str(), "routes": []interface{}{map[string]interface{}{"cluster": g.str(), "source_addrs": []interface{}{"127.0.0.1"}}}}
+		default:
+			obj["type"] = g.name("verif-unknown")
+		}
+	case "FilterChain", "FilterChainConfig": // the deprecated connection_manager router may appear once per chain
+		seen := false
+		for _, f := range asList(obj["filters"]) {
+			if fm := asMap(f); fm != nil && fm["type"] == "connection_manager" {
+				if seen {
+					fm["type"] = g.name("verif-unknown")
+				}
+				seen = true
+			}
+		}
+	case "TLSConfig":
+		delete(obj, "status")
+	case "RouterConfiguration", "RouterConfigurationConfig":
+		obj["router_config_name"] = g.name("router")
+		star := false
+		for _, vh := range asList(obj["virtual_hosts"]) {
+			vhm := asMap(vh)
+			if vhm == nil {
+				continue
+			}
+			vhm["name"] = g.name("vhost")
+			cnt := g.r.Intn(3)
+			doms := []interface{}{}
+			for i := 0; i < cnt; i++ {
+				if !star && g.chance(30) {
+					star = true
+					doms = append(doms, "*")
+				} else {
+					doms = append(doms, g.name("d")+[]string{".example.com", ".example.com:8080", ""}[g.r.Intn(3)])
+				}
+			}
+			if cnt > 0 || g.chance(50) {
+				vhm["domains"] = doms
+			} else {
+				delete(vhm, "domains")
+			}
+		}
+	case "Cluster":
+		obj["name"] = g.name("cluster")
+		if t, _ := obj["type"].(string); t == "STRICT_DNS" {
+			obj["type"] = "SIMPLE"
+		}
+		if hc := asMap(obj["health_check"]); hc != nil {
+			delete(hc, "service_name")
+		}
+	case "Host", "HostConfig": // hosts are keyed by address
+		g.dynSeq++
+		obj["address"] = fmt.Sprintf("10.%d.%d.%d:%d", g.r.Intn(256), g.dynSeq/256%256, g.dynSeq%256, 1+g.r.Intn(65535))
+	case "HeaderValueOption": // a header mutation names its header
+		obj["header"] = map[string]interface{}{"key": "x-" + g.r.Alnum(1+g.r.Intn(8)), "value": g.str()}
+	case "LBSubsetConfig": // documented: fall_back_policy is 0, 1 or 2; a selector is a non-empty list of metadata keys
+		if _, ok := obj["fall_back_policy"]; ok {
+			obj["fall_back_policy"] = uint64(g.r.Intn(3))
+		}
+		if _, ok := obj["subset_selectors"]; ok {
+			sel := []interface{}{}
+			for i, cnt := 0, g.r.Intn(4); i < cnt; i++ {
+				keys := []interface{}{}
+				for j, kc := 0, 1+g.r.Intn(3); j < kc; j++ {
+					keys = append(keys, "k"+g.r.Alnum(1+g.r.Intn(3)))
+				}
+				sel = append(sel, keys)
+			}
+			obj["subset_selectors"] = sel
+		}
+	}
+}
+
+// c19ClampFree: a typed configuration that travels inside a free-form map (Filter.config) is decoded into
+// interface{} first, i.e. its numbers pass through float64; integers beyond 2^53 are a zone left open.
+func c19ClampFree(v interface{}) interface{} {
+	const lim = int64(1) << 53
+	switch x := v.(type) {
+	case map[string]interface{}:
+		for k, e := range x {
+			x[k] = c19ClampFree(e)
+		}
+	case []interface{}:
+		for i, e := range x {
+			x[i] = c19ClampFree(e)
+		}
+	case int64:
+		if x > lim || x < -lim {
+			return x % lim
+		}
+	case uint64:
+		if x > uint64(lim) {
+			return x % uint64(lim)
+		}
+	}
+	return v
 }
